@@ -17,6 +17,26 @@ def S(name, quick, thorough, profile="release"):
     return dict(name=name, args=dict(quick=quick, thorough=thorough), profile=profile)
 
 
+CID_SCOPE = ("src/cid_prefix.rs, src/multihasher.rs (table order), src/utils.rs (convert_*), src/incoming_stream.rs::process_message, "
+             "and the validity rule of cid::CidGeneric::new (Model/Cid, Model/Incoming); hash functions and CidGeneric::try_from are oracles")
+
+CID_ASSUME = [
+    "hash functions are parameters of the theorems (an arbitrary deterministic oracle H); the harness feeds the real hasher's answers to the model",
+    "parsing of complete CIDs (cid crate) is an oracle",
+    "rustc/LLVM, std behave as documented",
+    "the correspondence check samples inputs; the theorems are about the Lean model",
+]
+
+NODE_SCOPE = ("src/server.rs (ServerBehaviour), src/client.rs (ClientBehaviour), src/wantlist.rs, src/lib.rs glue "
+              "(Model/Server, Model/Client, Model/Wantlist, Model/Node); connection handlers, libp2p-swarm, yamux are not in this model")
+
+NODE_ASSUME = [
+    "FuturesUnordered yields each completed future once, in wake order; Abortable never yields Ok after abort()",
+    "hash-set / hash-map iteration order is nondeterministic: the connection chosen for a wantlist and the lookup order of a full wantlist's additions are observed and fed to the model, which accepts any legal choice (theorems quantify over all choices)",
+    "libp2p-swarm delivers handler events and connection events as the NetworkBehaviour contract says",
+    "the correspondence check samples operation sequences (with full state comparison after every operation); the theorems are about the Lean model",
+]
+
 PROPS = {
     "C10": dict(
         lean_modules=["Beetswap.Props.C10"],
@@ -25,6 +45,75 @@ PROPS = {
         streams=[
             S("frame", ["--cases", 3000], ["--cases", 150000]),
             S("chunks", ["--cases", 250, "--cutlen", 200], ["--cases", 8000, "--cutlen", 400]),
+        ],
+    ),
+    "C09": dict(
+        lean_modules=["Beetswap.Props.C09"],
+        model_scope=CODEC_SCOPE,
+        assumptions=CODEC_ASSUME,
+        streams=[
+            S("limit", ["--cases", 400], ["--cases", 30000]),
+            S("chunks", ["--cases", 150, "--cutlen", 120], ["--cases", 5000, "--cutlen", 300]),
+        ],
+    ),
+    "C06": dict(
+        lean_modules=["Beetswap.Props.C06"],
+        model_scope=NODE_SCOPE,
+        assumptions=NODE_ASSUME,
+        streams=[
+            S("node", ["--cases", 120], ["--cases", 6000, "--ops", 120]),
+            S("nodebig", ["--cases", 12], ["--cases", 300]),
+        ],
+    ),
+    "C07": dict(
+        lean_modules=["Beetswap.Props.C07"],
+        model_scope=NODE_SCOPE,
+        assumptions=NODE_ASSUME,
+        streams=[
+            S("node", ["--cases", 120, "--peers", 4], ["--cases", 6000, "--peers", 4, "--ops", 120]),
+        ],
+    ),
+    "C12": dict(
+        lean_modules=["Beetswap.Props.C12"],
+        model_scope=CID_SCOPE,
+        assumptions=CID_ASSUME,
+        streams=[
+            S("prefix", ["--cases", 300, "--maxlen", 3], ["--cases", 50000, "--maxlen", 5]),
+            S("tocid", ["--cases", 300], ["--cases", 50000]),
+        ],
+    ),
+    "C16": dict(
+        lean_modules=["Beetswap.Props.C16"],
+        model_scope=CID_SCOPE,
+        assumptions=CID_ASSUME + ["independence of the inbound streams of one connection (futures SelectAll) and of the behaviours from a stream's end is by construction of the handler, not modelled"],
+        streams=[
+            S("procmsg", ["--cases", 300], ["--cases", 30000]),
+        ],
+    ),
+    "C18": dict(
+        lean_modules=["Beetswap.Props.C18"],
+        model_scope=CID_SCOPE,
+        assumptions=CID_ASSUME,
+        streams=[
+            S("hash", ["--cases", 800], ["--cases", 100000, "--exhaustive"]),
+            S("procmsg", ["--cases", 150], ["--cases", 10000]),
+        ],
+    ),
+    "C19": dict(
+        lean_modules=["Beetswap.Props.C19"],
+        model_scope=CID_SCOPE,
+        assumptions=CID_ASSUME + ["const-generic sizes: theorems are size-generic, the correspondence samples the pairs {0,1,16,20,31,32,33,48,63,64,128}^2"],
+        streams=[
+            S("conv", ["--cases", 1000], ["--cases", 500000]),
+        ],
+    ),
+    "C20": dict(
+        lean_modules=["Beetswap.Props.C20"],
+        model_scope="src/builder.rs::protocol_prefix/build, src/utils.rs::stream_protocol, StreamProtocol::try_from_owned's leading-slash rule (Model/Builder)",
+        assumptions=["multistream-select negotiates by exact protocol-name match (not modelled; hypothesis of the isolation claim)",
+                     "the correspondence check samples prefix strings (exhaustively up to a length over a boundary alphabet)"],
+        streams=[
+            S("proto", ["--cases", 300, "--maxlen", 4], ["--cases", 20000, "--maxlen", 6]),
         ],
     ),
     "C11": dict(
